@@ -1,0 +1,6 @@
+//go:build verif
+
+package generator
+
+// ResetForVerif forgets the handler package aliases handed out so far, as a new hz process would.
+func ResetForVerif() { handlerPkgMap = nil }
